@@ -62,13 +62,14 @@ func cat(ts ...tmpl) tmpl {
 var dirtyFeatures = []string{
 	"caret", "tab-colinc", "tab-default", "tab-in-block", "amp-in-block",
 	"radix", "english", "charparam", "nonint", "case-word", "upper-v", "nonascii",
-	"cond-bignum", "proc-nil", "v-nil", "tab-colinc-0",
+	"cond-bignum", "proc-nil", "v-nil",
 }
 
 // repaired in /repo since the pinned tree (findings with status "fixed: ..."):
 // generated freely in the clean stream again.
 var repairedFeatures = map[string]bool{
 	"nest-same": true, "nest-param": true, "nest-close-colon": true, "sep-struct": true, "tilde-param": true, "empty-string": true,
+	"tab-colinc-0": true, // 62dc4c3
 }
 
 // G generates templates.
